@@ -204,8 +204,20 @@ func main() {
 					}
 					switch fields[0] {
 					case "verif:redirect":
-						if len(fields) != 3 {
+						if len(fields) != 3 && len(fields) != 4 {
 							fatal("bad redirect directive: %s", txt)
+						}
+						if len(fields) == 4 { // only=<Harness1,Harness2>
+							only := strings.Split(strings.TrimPrefix(fields[3], "only="), ",")
+							hit := false
+							for _, o := range only {
+								if o == *run {
+									hit = true
+								}
+							}
+							if !hit {
+								continue
+							}
 						}
 						to := fnByName[fields[2]]
 						if to == nil {
